@@ -836,7 +836,8 @@ Proof.
     intros n. destruct (H4 n) as [bn [Ha [Hc|Hc]]].
     + exists bn, es. split; [exact Ha|]. split; [exact Hc|]. left. reflexivity.
     + exists bn, (ens es k). split; [exact Ha|]. split; [exact Hc|]. right. left. symmetry. apply spec_step_ReadV.
-  - rewrite (reopen_spec b h es R). cbn [bind fst snd apply_effects spec_step].
+  - unfold close_effects. cbn [apply_effects bind app].
+    rewrite (reopen_spec b h es R). cbn [bind fst snd apply_effects spec_step].
     exists h, [], b. split; [reflexivity|]. split; [reflexivity|]. split; [exact R|].
     intros n. exists b, es. rewrite firstn_nil. split; [reflexivity|]. split; [exists h; exact R|]. left. reflexivity.
 Qed.
@@ -1070,6 +1071,73 @@ Proof.
   intros Hwf Hb. destruct (run_spec ops Hwf Hb) as [b [h [tr [H _]]]]. exists tr. unfold trace. rewrite H. reflexivity.
 Qed.
 
+(* ---------- close() and forked children that inherited the handle ---------- *)
+Lemma close_keeps_file (h : handle) (f : fstate) : apply_effects f (close_effects h) = Ok f.
+Proof. reflexivity. Qed.
+
+Lemma own_ops_cons_own o ws : own_ops (Own o :: ws) = o :: own_ops ws.
+Proof. reflexivity. Qed.
+
+(* the children's closes leave the writer's run exactly as it is without them *)
+Lemma wrun_from_own : forall ws f h inh f' h' tr,
+  run_from isz (f, h) (own_ops ws) = Ok (f', h', tr) ->
+  exists inh', wrun_from isz (f, h, inh) ws = Ok (f', h', inh', tr).
+Proof.
+  induction ws as [|w r IH]; intros f h inh f' h' tr H.
+  - cbn [own_ops flat_map run_from fst snd] in H. injection H as <- <- <-.
+    exists inh. reflexivity.
+  - destruct w as [o| |].
+    + rewrite own_ops_cons_own in H. cbn [run_from fst snd] in H.
+      destruct (step isz (f, h) o) as [[[f1 h1] tr1]|e] eqn:S1; cbn [bind fst snd] in H; [|discriminate].
+      destruct (run_from isz (f1, h1) (own_ops r)) as [[[f2 h2] tr2]|e] eqn:S2; cbn [bind fst snd] in H; [|discriminate].
+      injection H as <- <- <-.
+      destruct (IH f1 h1 inh f2 h2 tr2 S2) as [inh' W].
+      exists inh'. cbn [wrun_from wstep fst snd]. rewrite S1. cbn [bind fst snd]. rewrite W. reflexivity.
+    + change (own_ops (Fork :: r)) with (own_ops r) in H.
+      destruct (IH f h (inh ++ [h]) f' h' tr H) as [inh' W].
+      exists inh'. cbn [wrun_from wstep fst snd bind]. rewrite W. reflexivity.
+    + change (own_ops (CloseInherited :: r)) with (own_ops r) in H.
+      destruct inh as [|hb r0].
+      * destruct (IH f h [] f' h' tr H) as [inh' W].
+        exists inh'. cbn [wrun_from wstep fst snd bind]. rewrite W. reflexivity.
+      * destruct (IH f h r0 f' h' tr H) as [inh' W].
+        exists inh'. cbn [wrun_from wstep fst snd]. rewrite close_keeps_file. cbn [bind fst snd].
+        rewrite W. reflexivity.
+Qed.
+
+Lemma wrun_from_spec : forall ws b h inh es,
+  Rep b h es -> Forall wf_op (own_ops ws) -> 8 + total (spec_from es (own_ops ws)) < 2147483648 ->
+  exists h' inh' tr b',
+    wrun_from isz (Some b, h, inh) ws = Ok (Some b', h', inh', tr) /\
+    apply_effects (Some b) tr = Ok (Some b') /\ Rep b' h' (spec_from es (own_ops ws)) /\
+    (forall n, exists bn m infl,
+        apply_effects (Some b) (firstn n tr) = Ok (Some bn) /\ (m <= length (own_ops ws))%nat /\
+        Cut bn (spec_from es (firstn m (own_ops ws)) ++ infl) /\
+        inflight_ok es (firstn m (own_ops ws)) (nth_error (own_ops ws) m) infl).
+Proof.
+  intros ws b h inh es R Hwf Hb.
+  destruct (run_from_spec (own_ops ws) b h es R Hwf Hb) as [h' [tr [b' [H1 [H2 [H3 C]]]]]].
+  destruct (wrun_from_own ws (Some b) h inh (Some b') h' tr H1) as [inh' W].
+  exists h', inh', tr, b'. auto.
+Qed.
+
+Lemma wtrace_own ws tr : trace isz (own_ops ws) = Ok tr -> wtrace isz ws = Ok tr.
+Proof.
+  unfold trace, run, wtrace, wrun. intros H.
+  destruct (start isz) as [[[f0 h0'] tr0]|e]; cbn [bind fst snd] in *; [|discriminate].
+  destruct (run_from isz (f0, h0') (own_ops ws)) as [[[f1 h1] tr1]|e] eqn:S1; cbn [bind fst snd] in H; [|discriminate].
+  injection H as <-.
+  destruct (wrun_from_own ws f0 h0' [] f1 h1 tr1 S1) as [inh' W]. rewrite W. reflexivity.
+Qed.
+
+Lemma wcuts_spec ws tr : Forall wf_op (own_ops ws) -> 8 + total (spec (own_ops ws)) < 2147483648 ->
+  wtrace isz ws = Ok tr ->
+  trace isz (own_ops ws) = Ok tr.
+Proof.
+  intros Hwf Hb Hw. destruct (trace_ok (own_ops ws) Hwf Hb) as [tr0 H0].
+  rewrite (wtrace_own ws tr0 H0) in Hw. injection Hw as <-. exact H0.
+Qed.
+
 Lemma C10_main ops : Forall wf_op ops -> 8 + total (spec ops) < 2147483648 ->
   exists b h tr, run isz ops = Ok (Some b, h, tr) /\ Rep b h (spec ops) /\
     read_all b h = Ok (spec ops) /\ read_all_from_file pg b = Ok (spec ops) /\
@@ -1085,6 +1153,40 @@ Qed.
 End Inv.
 
 (* the repair changes the reader on the empty file only *)
+(* ---------- files that vanish between the collector's listing and its read ---------- *)
+Lemma starts_with_app p s : starts_with p (p ++ s) = true.
+Proof. induction p as [|a p IH]; cbn [starts_with app]; [reflexivity|]. rewrite N.eqb_refl, IH. reflexivity. Qed.
+
+Lemma starts_with_inv : forall p s, starts_with p s = true -> exists r, s = p ++ r.
+Proof.
+  induction p as [|a p IH]; intros s H.
+  - exists s. reflexivity.
+  - destruct s as [|b s]; cbn [starts_with] in H; [discriminate|].
+    apply andb_true_iff in H. destruct H as [E H]. apply N.eqb_eq in E. subst b.
+    destruct (IH s H) as [r ->]. exists r. reflexivity.
+Qed.
+
+Lemma vanish_tolerated_iff typ p1 :
+  vanish_tolerated typ p1 = true <-> typ = S_GAUGE /\ exists s, p1 = S_LIVE ++ s.
+Proof.
+  unfold vanish_tolerated. rewrite andb_true_iff. split.
+  - intros [A B]. split; [apply keq_eq; exact A|apply starts_with_inv; exact B].
+  - intros [-> [s ->]]. split; [apply keq_refl|apply starts_with_app].
+Qed.
+
+Lemma vanished_live_ok pg s : read_listed pg S_GAUGE (S_LIVE ++ s) None = Ok [].
+Proof.
+  unfold read_listed. replace (vanish_tolerated S_GAUGE (S_LIVE ++ s)) with true; [reflexivity|].
+  symmetry. apply vanish_tolerated_iff. split; [reflexivity|exists s; reflexivity].
+Qed.
+
+Lemma vanished_other_raises pg typ p1 :
+  ~ (typ = S_GAUGE /\ exists s, p1 = S_LIVE ++ s) -> read_listed pg typ p1 None = Err OSError.
+Proof.
+  intros H. unfold read_listed. destruct (vanish_tolerated typ p1) eqn:E; [|reflexivity].
+  apply vanish_tolerated_iff in E. contradiction.
+Qed.
+
 Lemma reader_fix_conservative pg b : len (take pg b) <> 0 -> read_all_from_file pg b = read_all_from_file_orig pg b.
 Proof. intros H. unfold read_all_from_file. destruct (len (take pg b) =? 0) eqn:E; [lia|reflexivity]. Qed.
 
